@@ -573,10 +573,56 @@ def check_who_may_call(src, rep, cm_funcs, counts):
                        "%s opens descriptors %s that no code of the package ever closes: repeated use leaks descriptors"
                        % (unparse(n), e.extra))
                 continue
-            rep.ob("M5-who-may-call", f.where(n), f.scope, unparse(n), False,
-                   "state-changing primitive `%s` (%s) is called outside a context manager's __enter__/__exit__: "
-                   "nothing restores it" % (unparse(n.func), e.kind))
+            paired, why = _locally_paired(src, f, e, aliases)
+            rep.ob("M5-who-may-call", f.where(n), f.scope, unparse(n), paired,
+                   "state-changing primitive `%s` (%s) is called outside a context manager's __enter__/__exit__ and is "
+                   "not paired by a try/finally restore of a value saved in this function%s: nothing restores it"
+                   % (unparse(n.func), e.kind, why))
     counts["primitive_sites"] = sites
+
+
+def _locally_paired(src, f, e, aliases):
+    """try/finally idiom inside one function:  X = <save or set returning previous>; try: ... finally: <set kind to X>.
+    Accepts the change `e` when it is the saving set itself (directly before the try), lies in the try body, or is the
+    restore in the finally block.  X must be bound once (local) or written only in this function (attribute)."""
+    mod = f.module
+    for t in [x for x in f.own_nodes() if isinstance(x, ast.Try) and x.finalbody]:
+        fin_calls = [x for st in t.finalbody for x in ast.walk(st) if isinstance(x, ast.Call)]
+        restores = [r for r in (classify_call(src, f, c, aliases) for c in fin_calls)
+                    if r is not None and r.kind == e.kind and r.role == "set" and r.res == e.res]
+        for r in restores:
+            v = r.value
+            # where is v bound?
+            binds = []
+            for x in f.own_nodes():
+                if isinstance(x, ast.Assign) and len(x.targets) == 1 and unparse(x.targets[0]) == v and isinstance(x.value, ast.Call):
+                    b = classify_call(src, f, x.value, aliases)
+                    if b is not None and b.kind == e.kind and b.res == e.res and (b.role == "save" or b.saved_to == v):
+                        binds.append((x, b))
+            if len(binds) != 1:
+                continue
+            bstmt, b = binds[0]
+            if v.startswith("self."):
+                ws = writers_of_attr(src, mod.name, None, v[5:])
+                if any(g is not f for g, _ in ws) or len(ws) != 1:
+                    return False, " (the saved value %s is also written at %s)" % (
+                        v, ", ".join(g.where(n) for g, n in ws if n is not bstmt))
+            # bind statement must precede the try in the same block
+            parent = mod.parent.get(t)
+            block = None
+            for fld in ("body", "orelse", "finalbody"):
+                blk = getattr(parent, fld, None)
+                if isinstance(blk, list) and t in blk:
+                    block = blk
+            if block is None or bstmt not in block or block.index(bstmt) > block.index(t):
+                continue
+            between = block[block.index(bstmt) + 1:block.index(t)]
+            if any(isinstance(x, (ast.Return, ast.Raise)) for st in between for x in ast.walk(st)):
+                continue
+            in_try = any(x is e.node for st in t.body for x in ast.walk(st))
+            if e.node is r.node or e.node is b.node or in_try:
+                return True, ""
+    return False, ""
 
 
 def _fd_closed_somewhere(src, f, e):
